@@ -16,7 +16,7 @@ use embedded_graphics::mono_font::MonoTextStyleBuilder;
 use embedded_graphics::pixelcolor::raw::{BigEndianLsb0, LittleEndianMsb0, RawData, RawU1, RawU16};
 use embedded_graphics::pixelcolor::{BinaryColor, Rgb565};
 use embedded_graphics::prelude::*;
-use embedded_graphics::primitives::StrokeStyle;
+use embedded_graphics::primitives::{Rectangle, StrokeStyle};
 use embedded_graphics::text::{Text, TextStyleBuilder};
 use serde::{Deserialize, Serialize};
 use std::alloc::{GlobalAlloc, Layout, System};
@@ -348,6 +348,38 @@ fn check_range(c: &Case, obs: &mut Obs) {
                 }
             }
         }
+        "framebuffer-fill" => {
+            let f: Vec<i64> = a.split(',').map(|x| x.parse().unwrap()).collect();
+            let area = Rectangle::new(Point::new(f[0] as i32, f[1] as i32), Size::new(f[2] as u32, f[3] as u32));
+            macro_rules! fill_probe {
+                ($name:expr, $c:ty, $r:ty, $bo:ty, $w:expr, $h:expr, $col:expr) => {{
+                    let r = probe(obs, $name, || {
+                        let mut changed = [false; 4];
+                        for op in 0..4u8 {
+                            let mut fb = Framebuffer::<$c, $r, $bo, $w, $h, { buffer_size::<$c>($w, $h) }>::new();
+                            match op {
+                                0 => fb.fill_solid(&area, $col).unwrap(),
+                                1 => fb.fill_contiguous(&area, core::iter::repeat($col)).unwrap(),
+                                2 => area.into_styled(embedded_graphics::primitives::PrimitiveStyle::with_fill($col)).draw(&mut fb).unwrap(),
+                                _ => fb.clipped(&area).clear($col).unwrap(),
+                            }
+                            changed[op as usize] = fb.data().iter().any(|x| *x != 0);
+                        }
+                        changed
+                    });
+                    let overlaps = !area.intersection(&Rectangle::new(Point::zero(), Size::new($w, $h))).is_zero_sized();
+                    if let Some(ch) = r {
+                        if ch.iter().any(|c| *c != overlaps) {
+                            obs.fail("out-of-range-rejected", format!("{}: area {:?} overlaps the buffer: {overlaps}; data changed by fill_solid/fill_contiguous/filled rectangle/clipped clear: {:?}", $name, rt(&area), ch));
+                        }
+                    }
+                }};
+            }
+            fill_probe!("Framebuffer 1bpp 9x2 fills", BinaryColor, RawU1, LittleEndianMsb0, 9, 2, BinaryColor::On);
+            fill_probe!("Framebuffer 8bpp 10x10 fills", embedded_graphics::pixelcolor::Gray8, embedded_graphics::pixelcolor::raw::RawU8, LittleEndianMsb0, 10, 10, embedded_graphics::pixelcolor::Gray8::WHITE);
+            fill_probe!("Framebuffer 16bpp BE 5x3 fills", Rgb565, RawU16, BigEndianLsb0, 5, 3, Rgb565::WHITE);
+            fill_probe!("Framebuffer 4bpp BE 3x3 fills", embedded_graphics::pixelcolor::Gray4, embedded_graphics::pixelcolor::raw::RawU4, BigEndianLsb0, 3, 3, embedded_graphics::pixelcolor::Gray4::WHITE);
+        }
         "image-pixel" => {
             let p = parse_pt(a, b);
             let data = [0xFFu8; 12];
@@ -636,6 +668,9 @@ fn other_cases(tier: Tier) -> Vec<Case> {
             v.push(Case::Range { what: "image-pixel".into(), a: x.to_string(), b: y.to_string() });
         }
     }
+    for a in [(-1024, -1024, 2048, 2048), (1024, 1024, 1024, 1024), (-1024, -1024, 1024, 1024), (-1, -1, 1, 1), (1, 1, 1, 1), (2, 1, 1024, 1024), (0, 0, 0, 0), (-1024, 1, 2048, 0), (2, -1024, 0, 2048), (2, 1, 0, 1024), (2, 1, 1024, 0), (2, -1024, 1, 2048), (-1024, 1, 2048, 1), (1024, -1024, 0, 0), (0, 0, 1024, 1), (0, 0, 1, 1024)] {
+        v.push(Case::Range { what: "framebuffer-fill".into(), a: format!("{},{},{},{}", a.0, a.1, a.2, a.3), b: String::new() });
+    }
     let idxs: Vec<u128> = vec![0, 1, 7, 8, 9, 63, 64, 65, 1 << 31, 1 << 32, 1 << 62, 1 << 63, usize::MAX as u128 / 2, usize::MAX as u128 / 2 + 1, usize::MAX as u128 / 3, usize::MAX as u128 / 3 + 1, usize::MAX as u128 / 4 + 1, usize::MAX as u128 - 1, usize::MAX as u128];
     for bpp in BPPS {
         for i in &idxs {
@@ -662,7 +697,7 @@ fn run_part(run: &mut Run) {
             check,
         );
     } else {
-        run.sweep_vec("text-images-adapters-ranges", "text (null font, line heights {0,1,1024 px,0,100,400 %}, empty strings), images (zero-sized, sub-images outside/across/around at display scale), adapter stacks with display-scale areas, out-of-range points/indices for Framebuffer, ImageRaw::pixel, raw load/store/nth and sub_image", || other_cases(tier), check);
+        run.sweep_vec("text-images-adapters-ranges", "text (null font, line heights {0,1,1024 px,0,100,400 %}, empty strings), images (zero-sized, sub-images outside/across/around at display scale), adapter stacks with display-scale areas, out-of-range points/indices and display-scale fill areas (zero-sized ones included) for Framebuffer, ImageRaw::pixel, raw load/store/nth and sub_image", || other_cases(tier), check);
     }
 }
 
